@@ -32,7 +32,13 @@ func (c03Check) Describe() CheckInfo {
 	}
 }
 
+// c03Roots: the empty server and one where the same key names live in two databases with different deadlines.
+func c03Roots() [][]Action {
+	return [][]Action{nil, {cmd("SET", "s", "zero"), cmd("SET", "vs", "v", "EX", "100"), cmd("SELECT", "1"), cmd("SET", "s", "one"), cmd("SET", "vs", "keep"), cmd("SELECT", "0")}}
+}
+
 type c03Args struct {
+	Root      int
 	Mode      string // roundtrip | auto
 	Threshold uint64
 	Shard     int
@@ -47,9 +53,11 @@ func (c03Check) Units(tier string, seed int64) []Unit {
 		d = 4
 	}
 	sh := 16
-	for i := 0; i < sh; i++ {
-		b, _ := json.Marshal(c03Args{Mode: "roundtrip", Shard: i, Shards: sh, Depth: d})
-		us = append(us, Unit{Name: fmt.Sprintf("roundtrip-depth%d-shard%d", d, i), Args: b})
+	for root := range c03Roots() {
+		for i := 0; i < sh; i++ {
+			b, _ := json.Marshal(c03Args{Root: root, Mode: "roundtrip", Shard: i, Shards: sh, Depth: d})
+			us = append(us, Unit{Name: fmt.Sprintf("roundtrip-root%d-depth%d-shard%d", root, d, i), Args: b})
+		}
 	}
 	for t := uint64(1); t <= 3; t++ {
 		b, _ := json.Marshal(c03Args{Mode: "auto", Threshold: t, Shards: 1, Depth: int(t) + d})
@@ -215,7 +223,7 @@ func (c03Check) Run(u Unit, w *Worker) UnitResult {
 		}
 		return fs
 	}
-	runSeq(spec, nil, func(i int) bool { return i%a.Shards == a.Shard }, w, &res)
+	runSeq(spec, c03Roots()[a.Root], func(i int) bool { return i%a.Shards == a.Shard }, w, &res)
 	res.Samples = append(res.Samples, map[string]any{"mode": a.Mode, "threshold": a.Threshold, "depth": a.Depth, "alphabet": len(alpha)})
 	return res
 }
